@@ -174,12 +174,18 @@ func regexpNext(sb *strings.Builder, sl *stringLexer, mode Mode) error {
 			if sl.peekNext() != '(' {
 				break
 			}
-			start := sl.i - 1       // position of the operator
+			start := sl.i - 1 // position of the operator
+			// Build the group separately; like Bash, if it turns out to be
+			// unterminated, the operator and parenthesis are not special.
+			outer := sb
+			sb = new(strings.Builder)
 			sb.WriteRune(sl.next()) // (
+			closed := false
 		nestedLoop:
 			for {
 				switch sl.peekNext() {
 				case ')':
+					closed = true
 					break nestedLoop
 				case '|':
 					// extended operators support a list of "or" separated expressions
@@ -192,6 +198,13 @@ func regexpNext(sb *strings.Builder, sl *stringLexer, mode Mode) error {
 					return err
 				}
 			}
+			group := sb.String()
+			sb = outer
+			if !closed {
+				sl.i = start + 1 // reparse what follows the operator
+				break
+			}
+			sb.WriteString(group)
 			sb.WriteRune(sl.next()) // )
 			if op == '!' {
 				return &NegExtGlobError{Groups: []NegExtGlobGroup{{Start: start, End: sl.i}}}
